@@ -46,6 +46,16 @@ fn main() {
         print!("{}", first.1);
         return;
     }
+    // WASMDRV_THEN=<file>: compile stdin first, then the text of <file> in the same process and on the same
+    // thread; print the result of the second compilation only (to be compared with a process that compiled only it)
+    if let Ok(path) = std::env::var("WASMDRV_THEN") {
+        let then = std::fs::read_to_string(path).unwrap();
+        let _ = once(&input);
+        let r = once(&then);
+        println!("{}", if r.0 { "OK" } else { "ERR" });
+        print!("{}", r.1);
+        return;
+    }
     let r = once(&input);
     println!("{}", if r.0 { "OK" } else { "ERR" });
     print!("{}", r.1);
